@@ -80,6 +80,7 @@ func (m modelsim) Run(c *Case, dir string) *Outcome {
 		return out
 	}
 	for i := range c.Prog.Steps {
+		Tick()
 		e.RunStep(i, &c.Prog.Steps[i])
 		if e.Failed() {
 			break
